@@ -110,11 +110,12 @@ type vfWorld struct {
 	prelaunchSeen map[string]int
 	schedMsgs     map[int]*vfSched
 	fut           *vfFutWorld
+	zombieNames   map[string]bool // actors (by name) whose restart hook failed at some point: they were zombies for a while
 	schedIdentity []string
 }
 
 func newVfWorld(opts ...vivid.ActorSystemOption) *vfWorld {
-	w := &vfWorld{inflight: map[string]*int32{}, refs: map[string]vivid.ActorRef{}, specs: map[string]*vfSpec{}, sent: map[int]*vfSent{}, decCalls: map[string]int{}, badInst: map[int]bool{}, prelaunchSeen: map[string]int{}}
+	w := &vfWorld{inflight: map[string]*int32{}, refs: map[string]vivid.ActorRef{}, specs: map[string]*vfSpec{}, sent: map[int]*vfSent{}, decCalls: map[string]int{}, badInst: map[int]bool{}, prelaunchSeen: map[string]int{}, zombieNames: map[string]bool{}}
 	w.t0 = time.Now()
 	opts = append([]vivid.ActorSystemOption{vivid.WithActorSystemLogger(log.NewSilentLogger())}, opts...)
 	w.sys = NewSystem(opts...)
@@ -154,6 +155,16 @@ func (w *vfWorld) ref(name string) vivid.ActorRef {
 	w.mu.Lock()
 	defer w.mu.Unlock()
 	return w.refs[name]
+}
+
+// wasZombie: the actor at this path was a zombie at some point (registry scan or failed restart hook by name).
+func (w *vfWorld) wasZombie(path string, scanned map[string]bool) bool {
+	if scanned[path] {
+		return true
+	}
+	w.mu.Lock()
+	defer w.mu.Unlock()
+	return w.zombieNames[vfLast(path)]
 }
 
 func (w *vfWorld) newID() int { return int(w.nextID.Add(1)) }
@@ -394,10 +405,15 @@ func (a *vfActor) fail(ctx vivid.ActorContext, what string) {
 
 func (a *vfActor) hook(name string) error {
 	a.w.add(vfEv{Kind: "recv", Path: a.spec.Name, Inst: a.inst, Msg: "hook:" + name, ID: -1})
-	switch a.spec.HookFail[name] {
-	case 1:
-		return fmt.Errorf("vf hook %s error", name)
-	case 2:
+	if code := a.spec.HookFail[name]; code != 0 {
+		if name != "prerestart" { // a failing Restarted / Prelaunch hook turns the actor into a zombie
+			a.w.mu.Lock()
+			a.w.zombieNames[a.spec.Name] = true
+			a.w.mu.Unlock()
+		}
+		if code == 1 {
+			return fmt.Errorf("vf hook %s error", name)
+		}
 		panic("vf hook " + name + " panic")
 	}
 	return nil
@@ -715,10 +731,7 @@ func (w *vfWorld) oracleLedger(zombiePaths map[string]bool) (v []vfViol) {
 			total++
 		}
 		key := "via=" + s.Via
-		if zombiePaths[s.TargetPath] {
-			if np > 0 && false {
-				_ = np
-			}
+		if w.wasZombie(s.TargetPath, zombiePaths) {
 			if dl[id] > 1 {
 				v = append(v, vfViol{"c03-dead-letter-duplicated", key, fmt.Sprintf("message #%d to zombie %s dead-lettered %d times", id, s.TargetPath, dl[id])})
 			}
@@ -925,7 +938,9 @@ func (w *vfWorld) oracleKillOrder() (v []vfViol) {
 			continue // parent is the root guard (not a recording actor)
 		}
 		parent := p[:strings.LastIndex(p, "/")]
-		// only when the parent is a recording actor that outlived the child
+		if w.wasZombie(parent, nil) {
+			continue // a zombie parent runs no user code: its behaviour cannot record the notice
+		}
 		got := notice[parent][p]
 		watch := 0
 		_ = watch
@@ -974,8 +989,8 @@ func (w *vfWorld) oracleWatchers() (v []vfViol) {
 		}
 	}
 	for k := range everReg {
-		if everKilled[k.wt] {
-			continue // the watcher itself terminated at some point: its notices may be dead-lettered
+		if everKilled[k.wt] || w.wasZombie(k.wt, nil) {
+			continue // the watcher terminated at some point (its notices may be dead-lettered) or was a zombie (runs no user code)
 		}
 		if got[k] != expected[k] {
 			v = append(v, vfViol{"c06-watcher-notice-count", "OnKilled", fmt.Sprintf("watcher %s of %s: %d termination(s) of %s happened while the watch was registered, but the watcher received %d OnKilled", k.wt, k.x, expected[k], k.x, got[k])})
